@@ -283,7 +283,7 @@ func runC05(r *core.Run) {
 	core.Clause(r, "long-names", core.Opts{Rule: "names of every listed length (position-dependent content), unquoted and quoted variants; the following tree must still be read; non-trivial = length >= 2"},
 		func(emit func(c05Big) bool) {
 			for _, l := range nlens {
-				if !emit(c05Big{"name", l}) || !emit(c05Big{"quoted-name", l}) {
+				if !emit(c05Big{"name", l}) || !emit(c05Big{"quoted-name", l}) || !emit(c05Big{"quoted-name-without-inner-quotes", l}) {
 					return
 				}
 			}
@@ -294,6 +294,9 @@ func runC05(r *core.Run) {
 				name[i] = "abcdefghijklmnopqrstuvwxyzABCDEFGHIJKLMNOPQRSTUVWXYZ0123456789"[(i+i/62)%62]
 				if c.Kind == "quoted-name" && i%37 == 5 {
 					name[i] = " '(_"[(i/37)%4]
+				}
+				if c.Kind == "quoted-name-without-inner-quotes" && (i == 0 || i%1500 == 7) {
+					name[i] = "(,:"[(i/1500)%3] // needs quoting, but no quote character for thousands of bytes
 				}
 			}
 			t := defaultNwTree([]int{2, 0, 0})
